@@ -247,11 +247,11 @@ class Builder:
             g.edge(g.exitT, g.exit)
             g.edge(g.exitF, g.exit)
             ctx = Ctx(ret=g.exit, retT=g.exitT, retF=g.exitF, raise_to=g.raise_exit)
-            fr = self._seq(fn.body, [(g.entry, None)], frame, ctx)
+            fr = self._seq(copy_propagate(fn), [(g.entry, None)], frame, ctx)
             g.connect(fr, g.exitF)
         else:
             ctx = Ctx(ret=g.exit, raise_to=g.raise_exit)
-            fr = self._seq(fn.body, [(g.entry, None)], frame, ctx)
+            fr = self._seq(copy_propagate(fn), [(g.entry, None)], frame, ctx)
             g.connect(fr, g.exit)
         g.top = frame
         return g
@@ -642,7 +642,7 @@ class Builder:
             cctx = Ctx(ret=leave, retT=boolean[0], retF=boolean[1], raise_to=prop)
         else:
             cctx = Ctx(ret=leave, raise_to=prop)
-        out = self._seq(fn.body, [(enter, None)], callee, cctx)
+        out = self._seq(copy_propagate(fn), [(enter, None)], callee, cctx)
         if boolean:
             return out          # caller connects fall-off to the false join
         g.connect(out, leave)
@@ -662,6 +662,142 @@ def dump(g, limit=400):
 
 
 DEFERRED = (ast.Lambda, ast.FunctionDef, ast.AsyncFunctionDef, ast.ClassDef)
+
+PURE_BUILTINS = {'len', 'max', 'min', 'abs', 'isinstance', 'float', 'int', 'str', 'bool', 'round', 'sum', 'any', 'all', 'sorted', 'list', 'tuple', 'repr',
+                 'print', 'type', 'id', 'getattr', 'hasattr'}
+_CP_CACHE = {}
+
+
+def copy_propagate(fn):
+    """body of fn in which a local that has just been stored into a field of self is read through that field afterwards:
+
+        next_index = self._i + 1; self._i = next_index; if next_index >= n: ...      becomes      ...; if self._i >= n: ...
+
+    After `self.f = x` (or `self.f[k] = x`) the local x and the field hold the same value until either is assigned again or a call
+    that could change the field is made, so the rewrite is an identity on behaviour; it lets rules that follow a field (by name, at the
+    time it is read) see through a local that a refactoring introduced.  Statements that are not rewritten keep their identity."""
+    if id(fn) in _CP_CACHE:
+        return _CP_CACHE[id(fn)]
+    import copy
+    params = {a.arg for a in fn.args.args + fn.args.kwonlyargs}
+
+    def target_ok(t):
+        if isinstance(t, ast.Attribute) and isinstance(t.value, ast.Name) and t.value.id == 'self':
+            return True
+        if isinstance(t, ast.Subscript) and isinstance(t.value, ast.Attribute) and isinstance(t.value.value, ast.Name) and t.value.value.id == 'self' \
+                and isinstance(t.slice, (ast.Name, ast.Constant)):
+            return True
+        return False
+
+    def field_of(t):
+        return t.attr if isinstance(t, ast.Attribute) else t.value.attr
+
+    def kills(st, active):
+        """names of active locals invalidated by executing st (anywhere inside it)"""
+        dead = set()
+        stored_names, stored_fields, risky_call = set(), set(), False
+        for x in ast.walk(st):
+            if isinstance(x, ast.Name) and isinstance(x.ctx, (ast.Store, ast.Del)):
+                stored_names.add(x.id)
+            elif isinstance(x, ast.Attribute) and isinstance(x.ctx, (ast.Store, ast.Del)) and isinstance(x.value, ast.Name) and x.value.id == 'self':
+                stored_fields.add(x.attr)
+            elif isinstance(x, ast.Subscript) and isinstance(x.ctx, (ast.Store, ast.Del)) and isinstance(x.value, ast.Attribute):
+                stored_fields.add(x.value.attr)
+            elif isinstance(x, ast.Call):
+                f = x.func
+                if not (isinstance(f, ast.Name) and f.id in PURE_BUILTINS):
+                    risky_call = True
+        for nm, t in active.items():
+            key_names = {k.id for k in ast.walk(t) if isinstance(k, ast.Name) and k.id != 'self'}
+            if nm in stored_names or key_names & stored_names or field_of(t) in stored_fields or risky_call:
+                dead.add(nm)
+        return dead
+
+    class Sub(ast.NodeTransformer):
+        def __init__(self, active):
+            self.active = active
+            self.changed = False
+
+        def visit_Name(self, n):
+            if isinstance(n.ctx, ast.Load) and n.id in self.active:
+                self.changed = True
+                t = copy.deepcopy(self.active[n.id])
+                for x in ast.walk(t):
+                    if hasattr(x, 'ctx'):
+                        x.ctx = ast.Load()
+                return ast.copy_location(t, n)
+            return n
+
+        def visit_FunctionDef(self, n):
+            return n
+
+        def visit_Lambda(self, n):
+            return n
+
+    def rewrite_expr(e, active):
+        if e is None or not active:
+            return e
+        s_ = Sub(active)
+        new = s_.visit(copy.deepcopy(e))
+        return ast.fix_missing_locations(new) if s_.changed else e
+
+    def block(stmts, active):
+        out = []
+        for st in stmts:
+            new = st
+            if isinstance(st, (ast.If, ast.While)):
+                test = rewrite_expr(st.test, active)
+                inner = dict(active) if isinstance(st, ast.If) else {k: v for k, v in active.items() if k not in kills(st, active)}
+                body = block(st.body, dict(inner))
+                orelse = block(st.orelse, dict(inner))
+                if test is not st.test or any(a is not b for a, b in zip(body, st.body)) or any(a is not b for a, b in zip(orelse, st.orelse)):
+                    new = ast.copy_location(type(st)(test=test, body=body, orelse=orelse), st)
+            elif isinstance(st, ast.For):
+                it = rewrite_expr(st.iter, active)
+                inner = {k: v for k, v in active.items() if k not in kills(st, active)}
+                body = block(st.body, dict(inner))
+                orelse = block(st.orelse, dict(inner))
+                if it is not st.iter or any(a is not b for a, b in zip(body, st.body)) or any(a is not b for a, b in zip(orelse, st.orelse)):
+                    new = ast.copy_location(ast.For(target=st.target, iter=it, body=body, orelse=orelse, type_comment=None), st)
+            elif isinstance(st, (ast.Try, ast.With, ast.FunctionDef, ast.ClassDef, ast.AsyncFunctionDef)):
+                new = st        # not rewritten inside; everything it may change is invalidated below
+            elif active and not (isinstance(st, (ast.Assign, ast.AugAssign)) and False):
+                if isinstance(st, ast.Assign):
+                    v = rewrite_expr(st.value, active)
+                    # sub-expressions of targets (keys) are left alone
+                    if v is not st.value:
+                        new = ast.copy_location(ast.Assign(targets=st.targets, value=v, type_comment=None), st)
+                elif isinstance(st, ast.AugAssign):
+                    v = rewrite_expr(st.value, active)
+                    if v is not st.value:
+                        new = ast.copy_location(ast.AugAssign(target=st.target, op=st.op, value=v), st)
+                elif isinstance(st, ast.Expr):
+                    v = rewrite_expr(st.value, active)
+                    if v is not st.value:
+                        new = ast.copy_location(ast.Expr(value=v), st)
+                elif isinstance(st, ast.Return) and st.value is not None:
+                    v = rewrite_expr(st.value, active)
+                    if v is not st.value:
+                        new = ast.copy_location(ast.Return(value=v), st)
+                elif isinstance(st, ast.Assert):
+                    v = rewrite_expr(st.test, active)
+                    if v is not st.test:
+                        new = ast.copy_location(ast.Assert(test=v, msg=st.msg), st)
+            if new is not st:
+                ast.fix_missing_locations(new)
+            out.append(new)
+            # what this statement invalidates ...
+            for nm in kills(st, active):
+                active.pop(nm, None)
+            # ... and what it establishes
+            if isinstance(st, ast.Assign) and len(st.targets) == 1 and target_ok(st.targets[0]) and isinstance(st.value, ast.Name) \
+                    and st.value.id not in params and st.value.id != 'self':
+                active[st.value.id] = st.targets[0]
+        return out
+    res = block(fn.body, {})
+    _CP_CACHE[id(fn)] = res
+    return res
+
 
 
 def own_exprs(node):
